@@ -193,8 +193,9 @@ def dot_body(cfg):
             if rest != expattr + ";":
                 return {"why": "nodeattrfunc result not verbatim", "line": line, "exp": expattr}
         elif unique:
-            if rest != ' [label="%s"];' % (nodes[x].name,):
-                return {"why": "UniqueDotExporter default label", "line": line}
+            # the default attribute text (a label) is not fixed by the property: any ' [...]' is accepted
+            if not (rest == ";" or (rest.startswith(" [") and rest.endswith("];"))):
+                return {"why": "UniqueDotExporter node statement tail", "line": line}
         elif rest != ";":
             return {"why": "node statement tail", "line": line}
         ids[x] = raw
